@@ -45,6 +45,8 @@
 #include <uriparser/Uri.h>
 
 #define HARD_CAP ((size_t)1 << 20)
+/* "bighist" requests (large blocks; checked by oracles on the implementation only, not sent to the model) raise the clamp */
+static size_t hard_cap = HARD_CAP;
 #define JUNK 0xA5
 #ifdef DRV_EXACT
 # define GUARD 0
@@ -198,7 +200,7 @@ static void run_hist(char *capf, char *failf, char *opsf) {
 	memset(slot, 0, sizeof slot);
 	be_reset();
 	be_cap = (size_t)strtoull(capf, NULL, 16);
-	if (be_cap > HARD_CAP) be_cap = HARD_CAP;
+	if (be_cap > hard_cap) be_cap = hard_cap;
 	free(failset); failset = NULL; failn = 0;
 	if (failf[0] != '-') {
 		const char *p = failf;
@@ -293,7 +295,8 @@ int main(void) {
 		}
 		outlen = 0; if (out) out[0] = 0;
 		if (nf == 0) { puts(""); continue; }
-		if (!strcmp(f[0], "hist") && nf == 4) run_hist(f[1], f[2], f[3]);
+		if (!strcmp(f[0], "hist") && nf == 4) { hard_cap = HARD_CAP; run_hist(f[1], f[2], f[3]); }
+		else if (!strcmp(f[0], "bighist") && nf == 4) { hard_cap = (size_t)8 << 20; run_hist(f[1], f[2], f[3]); hard_cap = HARD_CAP; }
 		else if (!strcmp(f[0], "cmm") && nf == 5) {
 			UriMemoryManager backend, mm;
 			memset(&backend, 0, sizeof backend); memset(&mm, 0, sizeof mm);
